@@ -10,8 +10,8 @@
      inv_kept sem Inv := every method call preserves Inv
      good_reply s i r := exists d, usd_decode r = Some d /\ echoes s i d /\ bytes r
      line_ok Inv l    := framing state reachable-shaped, buffered bytes are bytes, units in Inv *)
-From DS Require Import Base.Prelude Base.Bits Model.Utils Model.AslLine Spec.AslReplySpec
-  Proofs.AslFrameProofs Proofs.AslLineProofs Proofs.AslReplyProofs.
+From DS Require Import Base.Prelude Base.Bits Model.Utils Model.AslLine Spec.AslReplySpec.
+From DS Require Import Proofs.AslFrameProofs Proofs.AslLineProofs Proofs.AslReplyProofs.
 
 (* message level: a reply is only ever caused by a unicast request; it decodes, all its elements
    are bytes, it carries the request's start byte and, for 0xFC requests, the request's address *)
@@ -64,3 +64,8 @@ Example C04_as_ex2 : usd_decode [6; 250; 0; 24; 24; 207] = Some (DData 250 None 
 Proof. vm_compute. reflexivity. Qed.
 Example C04_as_ex3 : usd_decode [6; 252; 96; 0; 0; 0; 0; 157] = None.   (* nibble 3, 4 bytes *)
 Proof. vm_compute. reflexivity. Qed.
+(* the hypotheses on the units are satisfiable (a constant toy USD whose position stays in the
+   actuator range), so the theorems above are not vacuous *)
+Example C04_as_ex_hypotheses : usd_ok toy_sem toy_inv /\ inv_kept toy_sem toy_inv /\
+  getters_pure toy_sem [0; 5; -7].
+Proof. exact toy_usd_ok. Qed.
